@@ -74,12 +74,9 @@ def _dictattr(conv, name):
 
 def structure(conv, ordered=True):
     """Records, delimiter, introspection views and the index dictionaries."""
-    recs = [record_dump(r) for r in conv.records]
-    if not ordered:
-        recs = sorted(recs, key=record_key)
-    return {
-        "records": recs,
-        "delimiter": conv.delimiter,
+    # the views are asked first and ``records`` is read last: a view that tidies the list up lazily must not
+    # make the list read a moment earlier stale
+    views = {
         "get_prefixes": call(lambda: conv.get_prefixes()),
         "get_prefixes_syn": call(lambda: conv.get_prefixes(include_synonyms=True)),
         "get_uri_prefixes": call(lambda: conv.get_uri_prefixes()),
@@ -92,6 +89,10 @@ def structure(conv, ordered=True):
         "pattern_map": _dictattr(conv, "pattern_map"),
         "trie": _dictattr(conv, "trie"),
     }
+    recs = [record_dump(r) for r in conv.records]
+    if not ordered:
+        recs = sorted(recs, key=record_key)
+    return {"records": recs, "delimiter": conv.delimiter, **views}
 
 
 def answers(conv, strings, pairs, full=True):
@@ -269,3 +270,81 @@ def probe_sets(curie_pool, uri_pool, id_pool, delimiters, max_ids=3, compact=Fal
     add("no delimiter here")
     pairs = [(p, i) for p in curie_pool for i in ids[:2]] + [("zz", "1")]
     return strings, pairs
+
+
+def scratch_dir(prefix):
+    """A private scratch directory for the file-based observations (memory-backed where there is one)."""
+    import os
+    import tempfile
+
+    shm = "/dev/shm"
+    return tempfile.mkdtemp(prefix=prefix, dir=shm if os.path.isdir(shm) and os.access(shm, os.W_OK) else None)
+
+
+def bulk_answers(conv, cells, dirpath):
+    """The bulk functions as queries: two data-frame calls (pd_expand over the cells that have the converter's
+    delimiter - the others make it raise - and pd_compress over all cells) and one file call (file_compress
+    over all cells)."""
+    import csv
+    import os
+
+    import pandas as pd
+
+    def frame():
+        d = conv.delimiter
+        sub = [x for x in cells if d in x]
+        if not sub:
+            return ["no cell with the delimiter"]
+        df = pd.DataFrame({"c": sub})
+        try:
+            conv.pd_expand(df, "c", target_column="t")
+            return ["ok", [None if pd.isna(x) else x for x in df["t"]]]
+        except Exception as e:  # noqa: BLE001 - whatever the bulk function does is an observation
+            return ["exc", type(e).__name__]
+
+    def file():
+        path = os.path.join(dirpath, "cells.tsv")
+        with open(path, "w", newline="", encoding="utf-8") as f:
+            csv.writer(f, delimiter="\t").writerows([[x] for x in cells])
+        try:
+            conv.file_compress(path, 0, header=False)
+            with open(path, newline="", encoding="utf-8") as f:
+                return ["ok", [row[0] if row else "" for row in csv.reader(f, delimiter="\t")]]
+        except Exception as e:  # noqa: BLE001
+            return ["exc", type(e).__name__]
+
+    def frame_compress():
+        df = pd.DataFrame({"c": list(cells)})
+        try:
+            conv.pd_compress(df, "c", target_column="t")
+            return ["ok", [None if pd.isna(x) else x for x in df["t"]]]
+        except Exception as e:  # noqa: BLE001
+            return ["exc", type(e).__name__]
+
+    return {"pd_expand": frame(), "pd_compress": frame_compress(), "file_compress": file()}
+
+
+def written_extended_prefix_map(curies_module, conv, dirpath):
+    """What write_extended_prefix_map puts on disk for this converter, as a canonical value (records sorted,
+    synonym lists sorted): the serialised form is an answer of the converter too."""
+    import os
+
+    fn = getattr(curies_module, "write_extended_prefix_map", None)
+    if fn is None:
+        return ABSENT
+    path = os.path.join(dirpath, "epm.json")
+    try:
+        fn(conv, path)
+        with open(path, encoding="utf-8") as f:
+            data = json.load(f)
+    except Exception as e:  # noqa: BLE001
+        return ["exc", type(e).__name__]
+    if not isinstance(data, list):
+        return ["ok", canon(data)]
+    out = []
+    for rec in data:
+        if isinstance(rec, dict):
+            # (an empty list, an empty string or null says the same as leaving the key out)
+            rec = {k: (sorted(v, key=str) if isinstance(v, list) else v) for k, v in rec.items() if v not in ([], None, "")}
+        out.append(canon(rec))
+    return ["ok", sorted(out, key=lambda x: json.dumps(x, sort_keys=True))]
